@@ -28,7 +28,7 @@ A_raw = _f('attr.raw', ArrS, IntS, IntS, StrS, IntS)
 _child = _f('child', ArrS, IntS, IntS, IntS, IntS)
 _nk = _f('nchildren', ArrS, IntS, IntS, IntS)
 
-NAMES_OF_INTEREST = ('DW_AT_sibling', 'DW_AT_rnglists_base', 'DW_AT_loclists_base', 'DW_AT_str_offsets_base',
+NAMES_OF_INTEREST = ('DW_AT_sibling', 'DW_AT_stmt_list', 'DW_AT_rnglists_base', 'DW_AT_loclists_base', 'DW_AT_str_offsets_base',
                      'DW_AT_addr_base', 'DW_AT_import')
 REF_FORMS = ('DW_FORM_ref1', 'DW_FORM_ref2', 'DW_FORM_ref4', 'DW_FORM_ref8', 'DW_FORM_ref', 'DW_FORM_ref_udata')
 
